@@ -40,6 +40,8 @@ func (s *Stream) Close(context.Context) error {
 	// acquire mutex
 	s.mutex.Lock()
 	defer s.mutex.Unlock()
+	defer verifAt("sclose.return")
+	verifAt("sclose.locked")
 
 	// check state
 	if s.closed {
@@ -146,6 +148,7 @@ func (s *Stream) next(ctx context.Context, block bool) bool {
 	for {
 		// acquire mutex
 		s.mutex.Lock()
+		verifAt("next.locked")
 
 		// check validity
 		if s.error != nil || s.closed {
@@ -170,6 +173,7 @@ func (s *Stream) next(ctx context.Context, block bool) bool {
 
 		// get oplog
 		oplog := s.oplog()
+		verifAt("next.oplog", len(oplog.List))
 
 		// get index
 		index := -1
@@ -239,11 +243,13 @@ func (s *Stream) next(ctx context.Context, block bool) bool {
 		// release the mutex while blocking so Close and other accessors can
 		// run concurrently with the wait
 		signal := s.signal
+		verifAt("next.wait")
 		s.mutex.Unlock()
 
 		// await next event
 		select {
 		case _, ok := <-signal:
+			verifAt("next.woke", ok)
 			if !ok {
 				// close stream
 				s.mutex.Lock()
